@@ -361,7 +361,11 @@ type c11OrmCase struct {
 	Permuted    bool   `json:"permuted,omitempty"`
 }
 
-var c11ColNames = []string{"id", "name", "age", "score", "created_at", "flag", "data", "note", "k", "v", "user_id", "amount"}
+// db tag / column spellings: the column is always spelled exactly like the tag (the statement
+// says "by column name"; whether matching may also be case-insensitive is left open, so no two
+// names differ only by case and no case-variant of a tag is ever offered as a column)
+var c11ColNames = []string{"id", "name", "age", "score", "created_at", "flag", "data", "note", "k", "v", "user_id", "amount",
+	"userId", "UserName", "CREATED", "Total_Amount9", "x1Y", "camelCaseCol", "UPPER_SNAKE", "MixedCase_2", "Z", "orderID"}
 
 func c11GenStruct(r *rand.Rand, shape string) c11StructSpec {
 	n := 1 + r.Intn(6)
@@ -1122,9 +1126,9 @@ type c11StaticUntagged struct {
 type c11StaticTagged struct {
 	Name  string         `db:"name"`
 	ID    uint32         `db:"id"`
-	Score *float64       `db:"score"`
+	Score *float64       `db:"totalScore"`
 	Note  sql.NullString `db:"note,omitempty"`
-	At    time.Time      `db:"created_at"`
+	At    time.Time      `db:"CREATED_AT"`
 }
 
 // TestVerifC11OrmStatic: declared struct types, every column permutation.
@@ -1137,7 +1141,7 @@ func TestVerifC11OrmStatic(t *testing.T) {
 		name string
 		v    driver.Value
 	}
-	base := []colv{{"name", "ann"}, {"id", int64(7)}, {"score", 2.5}, {"note", nil}, {"created_at", at}}
+	base := []colv{{"name", "ann"}, {"id", int64(7)}, {"totalScore", 2.5}, {"note", nil}, {"CREATED_AT", at}}
 	check := func(got c11StaticTagged, has map[string]bool) string {
 		var wName string
 		var wID uint32
@@ -1149,10 +1153,10 @@ func TestVerifC11OrmStatic(t *testing.T) {
 		if has["id"] {
 			wID = 7
 		}
-		if has["score"] {
+		if has["totalScore"] {
 			wScore = 2.5
 		}
-		if has["created_at"] {
+		if has["CREATED_AT"] {
 			wAt = at
 		}
 		score := 0.0
@@ -1358,7 +1362,7 @@ func TestVerifC11OrmStatic(t *testing.T) {
 			m.Case(vk.Digest(desc), true)
 		}
 	}
-	m.Sample(map[string]any{"tagged_type": "Name string `db:name`; ID uint32 `db:id`; Score *float64 `db:score`; Note sql.NullString `db:note,omitempty`; At time.Time `db:created_at`", "permutations": len(perms), "cases": idx})
+	m.Sample(map[string]any{"tagged_type": "Name string `db:name`; ID uint32 `db:id`; Score *float64 `db:totalScore`; Note sql.NullString `db:note,omitempty`; At time.Time `db:CREATED_AT`", "permutations": len(perms), "cases": idx})
 }
 
 // TestVerifC11RowFetchFault: deterministic sweep of every single-row entry point with a
@@ -1387,7 +1391,7 @@ func TestVerifC11RowFetchFault(t *testing.T) {
 								spec := c11StructSpec{Fields: []c11FieldSpec{{Name: "F0", Kind: "int64"}, {Name: "F1", Kind: "string"}, {Name: "F2", Kind: "*float64"}}}
 								order := []int{0, 1, 2}
 								if shape == "tagged" {
-									spec.Fields[0].Tag, spec.Fields[1].Tag, spec.Fields[2].Tag = "id", "name", "score"
+									spec.Fields[0].Tag, spec.Fields[1].Tag, spec.Fields[2].Tag = "id", "userName", "SCORE_2"
 									order = []int{2, 0, 1}
 								}
 								c.Spec = &spec
